@@ -11,6 +11,8 @@ pub struct Scope {
     pub k: u8,
     pub weak: bool,
     pub copyroot: bool,
+    /// NewChild / Link / Unlink enabled
+    pub graph: bool,
     /// root operations also through map_root / try_map_root
     pub maproot: bool,
     pub upgrade_ops: bool,
@@ -55,6 +57,7 @@ pub const BASE: Scope = Scope {
     k: 2,
     weak: true,
     copyroot: true,
+    graph: true,
     maproot: false,
     upgrade_ops: true,
     wrap: true,
@@ -88,7 +91,9 @@ pub fn scope(name: &str) -> Option<Scope> {
         "S2w" => Scope { name: "S2w", n: 2, r: 1, k: 1, ..BASE },
         // barrier paths
         "S2b" => Scope { name: "S2b", n: 2, r: 1, k: 1, barrier: true, cells: false, ..BASE },
-        "S2bc" => Scope { name: "S2bc", n: 3, r: 1, k: 1, weak: true, copyroot: false, wrap: false, barrier: false, cells: true, ..BASE },
+        "S2bc" => Scope { name: "S2bc", n: 3, r: 1, k: 1, weak: false, upgrade_ops: false, copyroot: false, graph: false, wrap: false, cells: true, ..BASE },
+        "S2bcw" => Scope { name: "S2bcw", n: 3, r: 1, k: 1, weak: true, upgrade_ops: false, copyroot: false, graph: false, wrap: false, cells: true, ..BASE },
+        "S3bc" => Scope { name: "S3bc", n: 3, r: 1, k: 1, weak: true, copyroot: false, wrap: false, cells: true, ..BASE },
         "S2b2" => Scope { name: "S2b2", n: 2, r: 1, k: 2, copyroot: false, wrap: false, barrier: true, barrier2: true, ..BASE },
         "S3b" => Scope { name: "S3b", n: 3, r: 1, k: 1, barrier: true, ..BASE },
         // faults
@@ -97,6 +102,8 @@ pub fn scope(name: &str) -> Option<Scope> {
         // dynamic roots
         "S2d" => Scope { name: "S2d", n: 2, r: 1, k: 1, weak: false, upgrade_ops: false, sets: 1, handles: 3, ..BASE },
         "S2d2" => Scope { name: "S2d2", n: 2, r: 1, k: 1, weak: false, upgrade_ops: false, copyroot: false, wrap: false, sets: 2, handles: 2, ..BASE },
+        "S2dw" => Scope { name: "S2dw", n: 2, r: 1, k: 1, weak: true, upgrade_ops: true, copyroot: false, wrap: false, sets: 1, handles: 2, ..BASE },
+        "S2fd" => Scope { name: "S2fd", n: 2, r: 1, k: 1, weak: true, upgrade_ops: true, copyroot: false, wrap: false, fin: true, sets: 1, handles: 1, ..BASE },
         "S3d" => Scope { name: "S3d", n: 3, r: 1, k: 1, weak: false, upgrade_ops: false, sets: 1, handles: 3, ..BASE },
         // metrics
         "S2m" => Scope { name: "S2m", n: 2, r: 1, k: 1, leaf: true, faults: true, metrics_canon: true, ..BASE },
